@@ -264,6 +264,16 @@ template<class T> static void round_fn(Rng& r, char const* ty) {
 	CALL("isMultiple/ceil/floor/roundMultiple/next/prevMultiple<%s> %lld %lld", ty, (ll)s, (ll)m);
 	use(glm::isMultiple(s, m)); use(glm::ceilMultiple(s, m)); use(glm::floorMultiple(s, m)); use(glm::roundMultiple(s, m)); use(glm::nextMultiple(s, m)); use(glm::prevMultiple(s, m));
 	use(glm::ceilMultiple(glm::vec<2, T>(s, T(5)), glm::vec<2, T>(m, T(3)))); use(glm::floorMultiple(glm::vec<2, T>(s, T(5)), glm::vec<2, T>(m, T(3)))); use(glm::roundMultiple(glm::vec<2, T>(s, T(5)), glm::vec<2, T>(m, T(3))));
+	// sources at the ends of the type: in the domain whenever the multiple asked for is itself representable
+	{
+		typedef __int128 W; W lo = (W)std::numeric_limits<T>::min(), hi = (W)std::numeric_limits<T>::max();
+		W se = (r.next() & 1) ? lo + (W)r.range(0, 40) : hi - (W)r.range(0, 40); W me = (W)r.range(1, 33); if (me > hi) me = hi;
+		W fl = se - (((se % me) + me) % me), ce = fl == se ? se : fl + me;
+		T S = (T)se, M = (T)me;
+		if (fl >= lo) { CALL("floorMultiple/prevMultiple<%s> %lld %lld (end of range)", ty, (ll)S, (ll)M); use(glm::floorMultiple(S, M)); use(glm::prevMultiple(S, M)); use(glm::floorMultiple(glm::vec<2, T>(S, T(5)), glm::vec<2, T>(M, T(3)))); }
+		if (ce <= hi) { CALL("ceilMultiple/nextMultiple<%s> %lld %lld (end of range)", ty, (ll)S, (ll)M); use(glm::ceilMultiple(S, M)); use(glm::nextMultiple(S, M)); use(glm::ceilMultiple(glm::vec<2, T>(S, T(5)), glm::vec<2, T>(M, T(3)))); }
+		CALL("isMultiple<%s> %lld %lld (end of range)", ty, (ll)S, (ll)M); use(glm::isMultiple(S, M));
+	}
 	T x = i_any<T>(r); int nth = r.range(0, w);
 	CALL("findNSB<%s> %lld %d", ty, (ll)x, nth);
 	use(glm::findNSB(x, nth)); use(glm::findNSB(glm::vec<2, T>(x, T(6)), glm::vec<2, int>(nth, 1)));
@@ -341,7 +351,7 @@ static Group GROUPS[] = {
 	{ "common", g_common, "abs: any but the signed minimum; sign/min/max/clamp: any; rounding: any finite; iround/uround: 0 <= x inside the target range; inversesqrt: positive" },
 	{ "integer", g_integer, "value arguments: any; 0 <= offset, 0 <= bits, offset + bits <= width" },
 	{ "bitfield", g_bitfield, "mask: 0..width; rotate: value any, 0 <= shift < width; fill: first + count <= width" },
-	{ "round", g_round, "0 < v <= 2^(w-3); |source| <= 2^(w-3), 0 < multiple <= 2^(w-3); findNSB: any value, 0 <= n <= width" },
+	{ "round", g_round, "0 < v <= 2^(w-3); |source| <= 2^(w-3), 0 < multiple <= 2^(w-3), and sources within 40 of either end of the type with multiples 1..33 whenever the floor (ceil) multiple is representable; findNSB: any value, 0 <= n <= width" },
 	{ "relational", g_relational, "equal/notEqual (plain, epsilon, ULP; scalar and per-column/per-component tolerances), ordering relations, row/column access, transpose: every vector length, all nine matrix shapes, quaternions; any finite values" },
 	{ "gtx", g_gtx, "log2: x > 0; sqrt: x >= 0; pow: |b| <= 6, e <= 10; factorial: 0..12; powerOfTwo*: 0 < x <= 2^(w-3)" },
 };
